@@ -6,19 +6,21 @@ import Slock.Proofs.ElectCand
 Model: `Slock.Elect` (M-ELECT, `Slock/Model/Elect.lean`), tied to server/arbiter.go by the differential harness (real
 `ArbiterManager`s, real `DoVote`/`DoProposal`/`DoCommit`, real handlers, real `ArbiterStore`).
 
-Summary of what holds and what does not on the unchanged code:
+State after the repairs of D2 (`DoProposal` no longer rewrites the member's promise) and D3 (a failed `DoCommit` releases
+only a latch the member set itself); D1 (nothing of the vote round is persisted) is NOT repaired:
 
-* numbers never regress — TRUE for every acceptor that is not itself a candidate and is not restarted
-  (`C12_monotone_partial`, all executions, any length, any member count); each of the four handlers alone never
-  lowers a number (`C12_monotone_handlers`). FALSE in general: without any restart a candidate's `proposalId` is lowered by
-  `DoProposal`'s `proposalId = proposalIndex` (`C12_monotone_counterexample`); across a restart both numbers fall
-  back to the saved `commitId` (`C12_monotone_with_restart_counterexample`).
-* one winner — TRUE in the form: without restarts, two different (number, host) pairs can both be commit-accepted by
-  majorities only if EVERY member of the intersection of the two majorities ran a candidacy of its own
-  (`C12_one_winner_partial`; quorum intersection + the latch: a latched pure acceptor is frozen). FALSE in general:
-  without any restart a candidate whose `DoCommit` fails clears its own latch although another candidate's commit had
-  set it (`C12_one_winner_counterexample`); with a restart the latch and the un-persisted `commitId` are lost
-  (`C12_one_winner_with_restart_counterexample`).
+* numbers never regress — PROVED at full strength for the no-restart clause: for EVERY member (candidates included), in
+  every execution that does not restart that member, `proposalId` and `commitId` never decrease (`C12_monotone`).
+  Across a restart both numbers fall back to the saved `commitId` (`C12_monotone_with_restart_counterexample`, D1).
+* one winner — PROVED: a latched member never acknowledges a commit (`C12_latched_never_acks`); a failed commit round
+  keeps a latch somebody else set (`C12_failed_commit_keeps_foreign_latch`); without restarts, two different
+  (number, host) pairs can both be acknowledged by majorities only if every member of the intersection released its OWN
+  latch after a failed commit round of its own (`C12_one_winner_partial`). Still FALSE at the acceptor level: a candidate
+  that loses the replies of its commit round releases its own latch although a majority holds the commit, and a second
+  majority forms for another host (`C12_one_winner_counterexample`; only ONE candidate sees its `DoCommit` succeed — in
+  160 000 generated executions on the repaired code no execution without restart elected two leaders). With a restart the
+  latch and the un-persisted `commitId` are lost and two leaders are elected (`C12_one_winner_with_restart_counterexample`).
+* no proposal succeeds at a member that knows an online leader (`C12_refuse_while_leader_known`).
 * candidate choice, refusal of older logs, `CompareAofId` facts — TRUE as stated below.
 -/
 namespace Slock.C12
@@ -27,17 +29,16 @@ open Slock.Elect
 /-! ### numbers never regress -/
 
 /-- Each acceptor handler on its own (`commandHandleVoteCommand`, `commandHandleProposalCommand`/`DoSelfProposal`,
-`commandHandleCommitCommand`/`DoSelfCommit`), from ANY member state: `proposalId` and `commitId` do not decrease, and
-the meta file is not written (`saved` unchanged — in particular an accepted commit is not persisted). -/
+`commandHandleCommitCommand`/`DoSelfCommit`), from ANY member state: `proposalId` and `commitId` do not decrease. -/
 theorem C12_monotone_handlers (n : Nat) (m : Member) (self from_ k host : Nat) (aof : AofId) :
     (m.pid ≤ (handleVote self m).2.pid ∧ m.cid ≤ (handleVote self m).2.cid) ∧
-    (m.pid ≤ (handleProposal n m k host aof).2.pid ∧ m.cid ≤ (handleProposal n m k host aof).2.cid) ∧
+    (m.pid ≤ (handleProposal n self m k host aof).2.pid ∧ m.cid ≤ (handleProposal n self m k host aof).2.cid) ∧
     (m.pid ≤ (handleCommit n m from_ k host).2.pid ∧ m.cid ≤ (handleCommit n m from_ k host).2.cid) :=
-  ⟨(accRel_handleVote self m).mono.2, (accRel_handleProposal n m k host aof).mono.2, (accRel_handleCommit n m from_ k host).mono.2⟩
+  ⟨(accRel_handleVote self m).mono.2, (accRel_handleProposal n self m k host aof).mono.2, (accRel_handleCommit n m from_ k host).mono.2⟩
 
-/-- No handler of the vote / proposal / commit round writes `meta.pb`: an accepted commit is NOT persisted. -/
-theorem C12_commit_not_persisted (n : Nat) (m : Member) (from_ k host : Nat) (aof : AofId) :
-    (handleCommit n m from_ k host).2.saved = m.saved ∧ (handleProposal n m k host aof).2.saved = m.saved := by
+/-- No handler of the vote / proposal / commit round writes `meta.pb`: an accepted commit is NOT persisted (D1). -/
+theorem C12_commit_not_persisted (n self : Nat) (m : Member) (from_ k host : Nat) (aof : AofId) :
+    (handleCommit n m from_ k host).2.saved = m.saved ∧ (handleProposal n self m k host aof).2.saved = m.saved := by
   constructor
   · cases hr : handleCommit n m from_ k host with
     | mk r m' =>
@@ -46,72 +47,77 @@ theorem C12_commit_not_persisted (n : Nat) (m : Member) (from_ k host : Nat) (ao
       | badHost => rw [handleCommit_not_ok hr (by simp)]
       | propId => rw [handleCommit_not_ok hr (by simp)]
       | commitId => rw [handleCommit_not_ok hr (by simp)]
-  · cases hr : handleProposal n m k host aof with
+  · cases hr : handleProposal n self m k host aof with
     | mk r m' =>
       cases r with
-      | ok old => obtain ⟨_, _, _, _, h5⟩ := handleProposal_ok hr; rw [h5]
+      | ok old => obtain ⟨_, _, _, _, h5, _⟩ := handleProposal_ok hr; rw [h5]
       | reject => rw [handleProposal_not_ok hr (by simp)]
+      | role => rw [handleProposal_not_ok hr (by simp)]
+      | status => rw [handleProposal_not_ok hr (by simp)]
       | aofid => rw [handleProposal_not_ok hr (by simp)]
       | badHost => rw [handleProposal_not_ok hr (by simp)]
+      | offline => rw [handleProposal_not_ok hr (by simp)]
       | propId x => rw [handleProposal_not_ok hr (by simp)]
 
-/-- `C12_monotone` as far as it is true (`_partial`): in EVERY execution (any events — candidacies of the other members,
-deliveries in any order, losses, restarts and saves of the OTHER members — any length, any member count), a member that
-is neither started as a candidate nor restarted keeps `proposalId` and `commitId` non-decreasing. Missing for the full
-statement: members that are candidates themselves (see `C12_monotone_counterexample`). -/
+/-- a member that has not taken part in an election yet (any numbers with `commitId ≤ proposalId`, any log, any table) -/
+def FreshMember (m : Member) : Prop :=
+  m.phase = .idle ∧ m.commits = [] ∧ m.latch = none ∧ m.cid ≤ m.pid
+
+instance (m : Member) : Decidable (FreshMember m) := by unfold FreshMember; exact inferInstance
+
+theorem good_of_fresh {m : Member} (h : FreshMember m) : Good m := by
+  obtain ⟨h1, h2, h3, h4⟩ := h
+  refine ⟨h4, fun hl => absurd h3 hl, ?_, ?_⟩
+  · intro hp; rw [h1] at hp; simp at hp
+  · rw [h2]; simp
+
+/-- `C12_monotone`, no-restart clause, FULL strength (holds since the repair of D2): in every execution (any events in
+any order — candidacies of this and of other members, deliveries, losses, saves, restarts of OTHER members — any length,
+any member count), a member that is not itself restarted never sees its `proposalId` or its `commitId` decrease.
+The proposer-side code is covered: `step_decomp` splits every step into an acceptor move and one of {bookkeeping, the
+guarded raise at the end of `DoProposal`, the release of the member's own latch, the win}, and each keeps
+`commitId ≤ proposalId` and both numbers non-decreasing. -/
+theorem C12_monotone (s : State) (es : List Event) (i : Nat)
+    (hnr : ∀ e ∈ es, e ≠ .restart i) (hfresh : FreshMember (getM s.members i)) :
+    (getM s.members i).pid ≤ (getM (run s es).members i).pid ∧ (getM s.members i).cid ≤ (getM (run s es).members i).cid :=
+  (run_good es s i hnr (good_of_fresh hfresh)).2
+
+/-- … and the same between any two points of the execution (prefix `es1`, then `es2`). -/
+theorem C12_monotone_between (s : State) (es1 es2 : List Event) (i : Nat)
+    (hnr : ∀ e ∈ es1 ++ es2, e ≠ .restart i) (hfresh : FreshMember (getM s.members i)) :
+    (getM (run s es1).members i).pid ≤ (getM (run (run s es1) es2).members i).pid ∧
+    (getM (run s es1).members i).cid ≤ (getM (run (run s es1) es2).members i).cid := by
+  obtain ⟨g, _⟩ := run_good es1 s i (fun e he => hnr e (by simp [he])) (good_of_fresh hfresh)
+  exact (run_good es2 (run s es1) i (fun e he => hnr e (by simp [he])) g).2
+
+/-- pure acceptors (never a candidate, never restarted): kept from before the repairs; it needs no hypothesis on the
+numbers of the initial state -/
 theorem C12_monotone_partial (s : State) (es : List Event) (i : Nat)
     (hpure : PureAcceptor i es) (hidle : (getM s.members i).phase = .idle) :
     (getM s.members i).pid ≤ (getM (run s es).members i).pid ∧ (getM s.members i).cid ≤ (getM (run s es).members i).cid := by
   obtain ⟨_, h2, h3, _, _⟩ := run_pure es s i hpure hidle
   exact ⟨h2, h3⟩
 
-/-- … and the same between any two points of the execution (prefix `es1`, then `es2`). -/
-theorem C12_monotone_partial_between (s : State) (es1 es2 : List Event) (i : Nat)
-    (hpure : PureAcceptor i (es1 ++ es2)) (hidle : (getM s.members i).phase = .idle) :
-    (getM (run s es1).members i).pid ≤ (getM (run (run s es1) es2).members i).pid ∧
-    (getM (run s es1).members i).cid ≤ (getM (run (run s es1) es2).members i).cid := by
-  have h1 : PureAcceptor i es1 := fun e he => hpure e (by simp [he])
-  have h2 : PureAcceptor i es2 := fun e he => hpure e (by simp [he])
-  obtain ⟨hid, _⟩ := run_pure es1 s i h1 hidle
-  exact C12_monotone_partial (run s es1) es2 i h2 hid
-
-/-- Where a regression can come from at all (every state, every event, every member — candidates included): a step that
-is not a restart of member `i` leaves `i`'s `proposalId` non-decreasing unless it is the successful end of `i`'s own
-`DoProposal` (phase prop → commit, which assigns `proposalId = proposalIndex`), and leaves `commitId` non-decreasing
-unless it is the successful end of `i`'s own `DoCommit` (phase commit → won, which assigns `commitId = proposalId`).
-The first exception really lowers the number (`C12_monotone_counterexample`); for the second no lowering execution was
-found (none in 10^5 generated executions on the real code) and none is proved impossible. -/
-theorem C12_monotone_regress_sources (s : State) (e : Event) (i : Nat) (hr : e ≠ .restart i) :
-    ((getM s.members i).pid ≤ (getM (step s e).1.members i).pid ∨
-      ((getM s.members i).phase = .prop ∧ (getM (step s e).1.members i).phase = .commit ∧
-        (getM (step s e).1.members i).pid = (getM (step s e).1.members i).pidx)) ∧
-    ((getM s.members i).cid ≤ (getM (step s e).1.members i).cid ∨
-      ((getM s.members i).phase = .commit ∧ (getM (step s e).1.members i).phase = .won)) :=
-  step_rel s e i hr
-
 /-! three members with identical logs; host order: member 0 < member 1 < member 2 -/
 def logA : AofId := ⟨3, 64, 1700000000⟩
 def cluster3 : State := ⟨[initMember 3 0 1 0 logA, initMember 3 1 1 0 logA, initMember 3 2 1 0 logA], []⟩
 
-/-- the hypotheses of `C12_monotone_partial` are satisfiable by a non-trivial execution: member 2 only answers while
-member 0 runs a whole (successful) candidacy -/
-example : PureAcceptor 2 [.start 0, .deliverReq 0 0, .deliverReq 0 2, .deliverRep 0 2] ∧ (getM cluster3.members 2).phase = .idle := by
-  constructor
-  · intro e he; simp at he; rcases he with he | he | he | he <;> subst he <;> simp
-  · decide
+example : FreshMember (getM cluster3.members 0) := by decide
 
-/-- `C12_monotone` FAILS without any restart: member 0 proposes number 1, promises number 2 to candidate 1 while its own
-round is still open, then its own `DoProposal` finishes successfully and assigns `proposalId = proposalIndex = 1`. -/
+/-- MUST-PASS (former witness of D2, replayed on the real code by the harness): member 0 proposes number 1, promises
+number 2 to candidate 1 while its own round is still open, then its own `DoProposal` finishes successfully — its
+`proposalId` stays 2 (it used to be assigned `proposalIndex = 1`), and its own commit 1 is then refused by itself. -/
 def regressTrace : List Event :=
   [.start 0, .deliverReq 0 0, .deliverReq 0 1, .deliverRep 0 1, .deliverReq 0 2, .deliverRep 0 2,   -- vote
    .deliverReq 0 0, .deliverReq 0 2, .deliverRep 0 2, .deliverReq 0 1,                             -- proposal 1 (reply of 1 pending)
    .start 1, .deliverReq 1 1, .deliverReq 1 0, .deliverRep 1 0, .deliverReq 1 2, .deliverRep 1 2,   -- candidate 1 votes
    .deliverReq 1 1, .deliverReq 1 0]                                                              -- proposal 2: member 0 promises 2
 
-theorem C12_monotone_counterexample :
-    (regressTrace ++ [Event.deliverRep 0 1]).any Event.isRestart = false ∧
+theorem C12_monotone_corpus :
     (getM (run cluster3 regressTrace).members 0).pid = 2 ∧
-    (getM (run cluster3 (regressTrace ++ [.deliverRep 0 1])).members 0).pid = 1 := by decide
+    (getM (run cluster3 (regressTrace ++ [.deliverRep 0 1])).members 0).pid = 2 ∧
+    (getM (run cluster3 (regressTrace ++ [.deliverRep 0 1])).members 0).phase = .commit ∧
+    (getM (run cluster3 (regressTrace ++ [.deliverRep 0 1, .deliverReq 0 0])).members 0).latch = none := by decide
 
 /-- a complete candidacy of member `c` in a 3-member cluster in which only `c` and `t` take part (the third member `u`
 is unreachable): vote, proposal, commit -/
@@ -125,8 +131,8 @@ def cluster3r : State := ⟨[initMember 3 2 1 0 logA, initMember 3 0 1 0 logA, i
 
 def restartTrace : List Event := soloRound 0 1 2 ++ [.restart 1] ++ soloRound 2 1 0
 
-/-- `C12_monotone` across a restart FAILS (F9): member 1 accepted proposal 1 and commit 1; the commit handler did not
-save; after the restart it is back at proposalId = commitId = 0. -/
+/-- `C12_monotone` across a restart FAILS (D1, not repaired): member 1 accepted proposal 1 and commit 1; the commit
+handler did not save; after the restart it is back at proposalId = commitId = 0. -/
 theorem C12_monotone_with_restart_counterexample :
     (getM (run cluster3r (soloRound 0 1 2)).members 1).pid = 1 ∧ (getM (run cluster3r (soloRound 0 1 2)).members 1).cid = 1 ∧
     (getM (run cluster3r (soloRound 0 1 2 ++ [.restart 1])).members 1).pid = 0 ∧
@@ -135,67 +141,113 @@ theorem C12_monotone_with_restart_counterexample :
 
 /-! ### one winner -/
 
-/-- every member is idle, unlatched and has not accepted any commit (numbers, logs, roles arbitrary) -/
-def Fresh (s : State) : Prop :=
-  ∀ i, i < s.n → (getM s.members i).phase = .idle ∧ (getM s.members i).commits = [] ∧ (getM s.members i).latch = none
+/-- every member is fresh -/
+def Fresh (s : State) : Prop := ∀ i, i < s.n → FreshMember (getM s.members i)
 
-/-- `C12_one_winner` as far as the real handlers guarantee it (`_partial`), for ALL executions without restart events,
-any length, any member count, any number of candidates:
+/-- a latched member never acknowledges a commit (its `commitId` equals its `proposalId`; an acknowledgement needs
+`commitId < number = proposalId`) -/
+theorem C12_latched_never_acks (n : Nat) (m : Member) (from_ k host : Nat) (hg : Good m) (hl : m.latch ≠ none) :
+    handleCommit n m from_ k host = (.propId, m) ∨ handleCommit n m from_ k host = (.commitId, m) ∨
+    handleCommit n m from_ k host = (.badHost, m) := by
+  have he := hg.2.1 hl
+  unfold handleCommit classifyCommit
+  by_cases h1 : host ≥ n
+  · right; right; simp [h1]
+  · by_cases h2 : m.pid = k
+    · right; left
+      have : m.cid ≥ k := by omega
+      simp [h1, h2, this]
+    · left; simp [h1, h2]
 
-if two different (number, host) pairs were each accepted as committed by a majority (`len/2+1`) of the members, then
-the two majorities share a member (quorum intersection), and EVERY member that accepted both ran a candidacy itself.
-Equivalently: members that only act as acceptors accept one commit, ever (the `proposalHost ≠ ""` latch freezes them),
-so as long as one member of the intersection is a pure acceptor there is at most one winner.
+/-- a failed commit round keeps a latch that somebody else set (repair of D3) -/
+theorem C12_failed_commit_keeps_foreign_latch (n c : Nat) (m : Member) (hfail : m.accepts < voteMajority n)
+    (hforeign : m.fromHost ≠ some c) :
+    (finishCommit n c m).1.latch = m.latch ∧ (finishCommit n c m).1.clears = m.clears := by
+  unfold finishCommit
+  simp [hfail, hforeign]
 
-Argument: `filter_overlap` (two sub-populations of size ≥ n/2+1 overlap) + `run_pure` (a pure acceptor keeps the
-invariant "unlatched with empty history, or latched with exactly one commit k and proposalId = commitId = k"; under it
-the proposal handler refuses because of the latch and the commit handler refuses because commitId ≥ k).
-What is missing for the full statement is exactly the proposer-side code that touches the acceptor fields: a failed
-`DoCommit` clears the latch (`C12_one_winner_counterexample`). -/
+/-- the end of `DoProposal` never lowers `proposalId`, never moves it while the member is latched, and sends the
+round's own number on to `DoCommit` (repair of D2) -/
+theorem C12_doproposal_keeps_promise (n c : Nat) (m : Member) :
+    m.pid ≤ (finishProposal n c m).1.pid ∧ (m.latch ≠ none → (finishProposal n c m).1.pid = m.pid) ∧
+    ((finishProposal n c m).1.phase = .commit → (finishProposal n c m).1.pidx = m.round) := by
+  unfold finishProposal
+  split
+  · simp
+  · split
+    · simp
+    · simp only [beginCommit]
+      by_cases hg : (decide (m.pid < m.round) && m.latch.isNone) = true
+      · rw [if_pos hg]
+        simp only [Bool.and_eq_true, decide_eq_true_eq] at hg
+        refine ⟨by omega, ?_, fun _ => trivial⟩
+        intro hl
+        cases hm : m.latch with
+        | none => exact absurd hm hl
+        | some x => rw [hm] at hg; simp at hg
+      · rw [if_neg hg]
+        exact ⟨Nat.le_refl _, fun _ => rfl, fun _ => trivial⟩
+
+/-- `C12_one_winner` as far as the repaired handlers + proposer code guarantee it at the level of acknowledgements
+(`_partial`), for ALL executions without restart events, any length, any member count, any number of candidates:
+
+if two different (number, host) pairs were each acknowledged as committed by a majority (`len/2+1`) of the members,
+then the two majorities share a member (quorum intersection), and EVERY member that acknowledged both released its own
+latch at least once after a failed commit round of its own (`clears ≥ 1`) — in particular it was a candidate.
+
+Argument: `filter_overlap` (two sub-populations of size ≥ n/2+1 overlap) + `run_good`: every member keeps
+"acknowledged commits ≤ releases of its own latch + (1 if latched)"; the proposal handler refuses a latched member, the
+commit handler refuses because its `commitId = proposalId`, `DoProposal` does not move a latched member's number, a
+failed `DoCommit` keeps a foreign latch. What is missing for the full statement: the release of the member's OWN latch
+is unsafe when acknowledgements were lost (`C12_one_winner_counterexample`). -/
 theorem C12_one_winner_partial (s : State) (es : List Event) (hfresh : Fresh s)
     (hnr : es.all (fun e => !e.isRestart) = true)
     (k h k' h' : Nat) (hne : (k, h) ≠ (k', h'))
     (hm : hasCommitMajority (run s es) k h = true) (hm' : hasCommitMajority (run s es) k' h' = true) :
     (∃ i, i < s.n ∧ (k, h) ∈ (getM (run s es).members i).commits ∧ (k', h') ∈ (getM (run s es).members i).commits) ∧
     (∀ i, i < s.n → (k, h) ∈ (getM (run s es).members i).commits → (k', h') ∈ (getM (run s es).members i).commits →
-      Event.start i ∈ es) := by
+      1 ≤ (getM (run s es).members i).clears ∧ Event.start i ∈ es) := by
   have hlen : (run s es).members.length = s.members.length := run_length s es
+  have hnr' : ∀ i, ∀ e ∈ es, e ≠ Event.restart i := by
+    intro i e he hc
+    rw [hc] at he
+    have := List.all_eq_true.mp hnr _ he
+    simp [Event.isRestart] at this
   constructor
   · unfold hasCommitMajority commitCount at hm hm'
     simp only [State.n, decide_eq_true_eq, ge_iff_le] at hm hm'
     obtain ⟨i, hi, h1, h2⟩ := majorities_intersect (run s es).members (k, h) (k', h') hm hm'
     exact ⟨i, by rw [State.n, ← hlen]; exact hi, h1, h2⟩
   · intro i hi h1 h2
-    by_cases hst : Event.start i ∈ es
-    · exact hst
-    · exfalso
-      have hp : PureAcceptor i es := by
-        intro e he
-        constructor
-        · intro hc; rw [hc] at he; exact hst he
-        · intro hc
-          rw [hc] at he
-          have := List.all_eq_true.mp hnr _ he
-          simp [Event.isRestart] at this
-      obtain ⟨f1, f2, f3⟩ := hfresh i hi
-      exact hne (pure_commits_le_one es s i hp f1 ⟨f2, f3⟩ h1 h2)
+    obtain ⟨⟨_, _, _, g4⟩, _⟩ := run_good es s i (hnr' i) (good_of_fresh (hfresh i hi))
+    have h2l := two_le_length_of_ne h1 h2 hne
+    constructor
+    · split at g4 <;> omega
+    · by_cases hst : Event.start i ∈ es
+      · exact hst
+      · exfalso
+        have hp : PureAcceptor i es := fun e he => ⟨fun hc => hst (by rw [← hc]; exact he), hnr' i e he⟩
+        obtain ⟨f1, f2, f3, _⟩ := hfresh i hi
+        exact hne (pure_commits_le_one es s i hp f1 ⟨f2, f3⟩ h1 h2)
 
-/-- Corollary: if some member of the cluster that never ran a candidacy belongs to both majorities, the pairs are equal;
-in particular with candidates that are not voting members, or whenever the two majorities overlap in a pure acceptor. -/
-theorem C12_one_winner_pure_intersection (s : State) (es : List Event) (hfresh : Fresh s)
-    (hnr : es.all (fun e => !e.isRestart) = true) (k h k' h' i : Nat) (hi : i < s.n) (hns : Event.start i ∉ es)
+/-- Corollary: a member that never released its own latch acknowledges at most one commit; if such a member belongs to
+both majorities the pairs are equal. -/
+theorem C12_one_winner_stable_intersection (s : State) (es : List Event) (hfresh : Fresh s)
+    (hnr : es.all (fun e => !e.isRestart) = true) (k h k' h' i : Nat) (hi : i < s.n)
+    (hc : (getM (run s es).members i).clears = 0)
     (h1 : (k, h) ∈ (getM (run s es).members i).commits) (h2 : (k', h') ∈ (getM (run s es).members i).commits) :
     (k, h) = (k', h') := by
-  have hp : PureAcceptor i es := by
-    intro e he
-    constructor
-    · intro hc; rw [hc] at he; exact hns he
-    · intro hc
-      rw [hc] at he
-      have := List.all_eq_true.mp hnr _ he
-      simp [Event.isRestart] at this
-  obtain ⟨f1, f2, f3⟩ := hfresh i hi
-  exact pure_commits_le_one es s i hp f1 ⟨f2, f3⟩ h1 h2
+  have hnr' : ∀ e ∈ es, e ≠ Event.restart i := by
+    intro e he hcc
+    rw [hcc] at he
+    have := List.all_eq_true.mp hnr _ he
+    simp [Event.isRestart] at this
+  obtain ⟨⟨_, _, _, g4⟩, _⟩ := run_good es s i hnr' (good_of_fresh (hfresh i hi))
+  by_cases hne : (k, h) = (k', h')
+  · exact hne
+  · have := two_le_length_of_ne h1 h2 hne
+    rw [hc] at g4
+    split at g4 <;> omega
 
 example : Fresh cluster3 := by
   intro i hi
@@ -206,44 +258,96 @@ example : Fresh cluster3 := by
 (number 1, host 1) has a commit majority -/
 example : (soloRound 0 1 2).all (fun e => !e.isRestart) = true ∧ hasCommitMajority (run cluster3 (soloRound 0 1 2)) 1 1 = true := by decide
 
-/-- `C12_one_winner` FAILS on the unchanged code even WITHOUT restart (new finding, "F9b"; the same execution is replayed
-on the real `ArbiterManager`s by the harness, which agrees event by event and reports `C12:two-leaders-elected`).
-Members X=0, B=1, C=2 (hosts ordered 0<1<2), no message is duplicated, no member restarts:
- 1. X votes (all answer), proposes number 1 — accepted by X and B; the request to C is still in flight, so X's
-    `DoProposal` is still waiting;
- 2. B votes (B,X answer; elects B), proposes number 2 — accepted by B and X (X holds 1 and is not latched) — and commits
-    (2, host B) at B and X: a commit majority; B's `DoCommit` succeeds, B is a winner; X is now latched on B;
- 3. C accepts X's proposal 1; X's `DoProposal` ends with 3 acceptances and ASSIGNS `proposalId = proposalIndex = 1`
-    (down from 2); X's commit round for number 1 fails everywhere (X itself: commitId 2 ≥ 1; the others unreachable), and
-    `DoCommit` runs `self.proposalHost = ""` — it clears the latch that B's commit had set on X;
- 4. X retries: votes (X,C answer; elects C), proposes number 3 — accepted by X (no latch any more) and C — and commits
-    (3, host C) at X and C: a second commit majority, for a different host; X's `DoCommit` succeeds as well. -/
+/-- MUST-PASS (former witness of D3, replayed on the real code by the harness). Members X=0, B=1, C=2:
+X's proposal 1 is accepted by X and B (the request to C stays in flight); B runs a whole candidacy with number 2 that X
+takes part in — X is now latched on B by B's commit; C accepts X's proposal 1, X's commit round for number 1 fails
+everywhere. X used to clear the latch B's commit had set and then won a second election with number 3; now X stays
+latched on B, holds proposalId 2, and a new candidacy of X does not start (it waits for B's announcement). -/
 def f9bTrace : List Event :=
   [.start 0, .deliverReq 0 0, .deliverReq 0 1, .deliverRep 0 1, .deliverReq 0 2, .deliverRep 0 2,
    .deliverReq 0 0, .deliverReq 0 1, .deliverRep 0 1] ++
   soloRound 1 0 2 ++
-  [.deliverReq 0 2, .deliverRep 0 2, .deliverReq 0 0, .dropReq 0 1, .dropReq 0 2] ++
-  soloRound 0 2 1
+  [.deliverReq 0 2, .deliverRep 0 2, .deliverReq 0 0, .dropReq 0 1, .dropReq 0 2]
+
+set_option maxRecDepth 1000000 in
+theorem C12_one_winner_corpus :
+    hasCommitMajority (run cluster3 f9bTrace) 2 1 = true ∧
+    (getM (run cluster3 f9bTrace).members 0).latch = some 1 ∧ (getM (run cluster3 f9bTrace).members 0).pid = 2 ∧
+    (getM (run cluster3 f9bTrace).members 0).phase = .idle ∧ (getM (run cluster3 f9bTrace).members 0).clears = 0 ∧
+    (step (run cluster3 f9bTrace) (.start 0)).2 = .waiting := by decide
+
+/-- `C12_one_winner` at the level of acknowledgements still FAILS without restart (residual of D3; the same execution is
+replayed on the real code by the harness, which agrees event by event and reports
+`C12:two-commit-majorities:failed-commit-cleared-latch`). Members 0, 1, 2 (hosts ordered 0<1<2):
+ 1. member 0 votes (0,1 answer; elects 1), proposes number 1 — accepted by 0 and 1 — and commits (1, host 1): member 0
+    acknowledges its own request, member 1 acknowledges but the REPLY IS LOST, member 2 is unreachable; member 0 counts
+    one acknowledgement, its `DoCommit` fails and releases the latch it set itself — although (1, host 1) is held by the
+    majority {0,1};
+ 2. member 2 votes (2,0 answer; elects 2); its number 1 is refused by 0; it retries with number 2 — accepted by 2 and by
+    0 (not latched any more) — and commits (2, host 2) at 2 and 0: a second majority, for another host.
+Only member 2 sees its `DoCommit` succeed. -/
+def lostReplyTrace : List Event :=
+  [.start 0, .deliverReq 0 0, .deliverReq 0 1, .deliverRep 0 1, .dropReq 0 2,
+   .deliverReq 0 0, .deliverReq 0 1, .deliverRep 0 1, .dropReq 0 2,
+   .deliverReq 0 0, .deliverReq 0 1, .dropRep 0 1, .dropReq 0 2,
+   .start 2, .deliverReq 2 2, .deliverReq 2 0, .deliverRep 2 0, .dropReq 2 1,
+   .deliverReq 2 2, .deliverReq 2 0, .deliverRep 2 0, .dropReq 2 1] ++
+  soloRound 2 0 1
 
 set_option maxRecDepth 1000000 in
 theorem C12_one_winner_counterexample :
-    f9bTrace.any Event.isRestart = false ∧
-    hasCommitMajority (run cluster3 f9bTrace) 2 1 = true ∧ hasCommitMajority (run cluster3 f9bTrace) 3 2 = true ∧
-    (getM (run cluster3 f9bTrace).members 1).phase = .won ∧ (getM (run cluster3 f9bTrace).members 0).phase = .won ∧
-    (getM (run cluster3 f9bTrace).members 1).latch = some 1 ∧ (getM (run cluster3 f9bTrace).members 0).latch = some 2 := by decide
-
-/-- the intersection member of that witness is indeed a candidate, as `C12_one_winner_partial` demands -/
-example : Event.start 0 ∈ f9bTrace := by decide
+    lostReplyTrace.any Event.isRestart = false ∧
+    hasCommitMajority (run cluster3 lostReplyTrace) 1 1 = true ∧ hasCommitMajority (run cluster3 lostReplyTrace) 2 2 = true ∧
+    (getM (run cluster3 lostReplyTrace).members 0).phase = .idle ∧ (getM (run cluster3 lostReplyTrace).members 0).clears = 1 ∧
+    (getM (run cluster3 lostReplyTrace).members 2).phase = .won ∧ (getM (run cluster3 lostReplyTrace).members 2).latch = some 2 := by decide
 
 set_option maxRecDepth 1000000 in
-/-- `C12_one_winner` with a restart FAILS (F9): member 0 wins with (1, host 0) through the majority {0,1}; member 1
-restarts from its meta file (commit not persisted, latch gone, proposalId back to 0); member 2 then wins with
+/-- `C12_one_winner` with a restart FAILS (D1, not repaired): member 0 wins with (1, host 0) through the majority {0,1};
+member 1 restarts from its meta file (commit not persisted, latch gone, proposalId back to 0); member 2 then wins with
 (1, host 2) through the majority {1,2}. Both candidates saw `DoCommit` succeed. -/
 theorem C12_one_winner_with_restart_counterexample :
     hasCommitMajority (run cluster3r restartTrace) 1 0 = true ∧ hasCommitMajority (run cluster3r restartTrace) 1 2 = true ∧
     (getM (run cluster3r restartTrace).members 0).phase = .won ∧ (getM (run cluster3r restartTrace).members 2).phase = .won ∧
     (getM (run cluster3r restartTrace).members 0).latch = some 0 ∧ (getM (run cluster3r restartTrace).members 2).latch = some 2 ∧
     (restartTrace.filter Event.isRestart).length = 1 := by decide
+
+/-! ### no proposal is accepted where an online leader is known -/
+
+/-- a member that is the leader itself refuses (ERR_ROLE); a member whose table holds an ONLINE entry with role LEADER
+refuses with ERR_STATUS (or ERR_AOFID, if an earlier entry's cached log is newer than the proposed one); nothing changes.
+(The refusal of a newer own log, ERR_REJECT, comes first in the code and is covered by `C12_refuse_newer`.) -/
+theorem C12_refuse_while_leader_known (n self : Nat) (m : Member) (k host : Nat) (aof : AofId)
+    (hlen1 : m.roles.length = m.statuses.length) (hlen2 : m.roles.length = m.views.length)
+    (j : Nat) (hj : j < m.roles.length) (hr : getN m.roles j = ROLE_LEADER) (hs : getN m.statuses j = STATUS_ONLINE) :
+    (handleProposal n self m k host aof).2 = m ∧ ∀ o, (handleProposal n self m k host aof).1 ≠ .ok o := by
+  have key : ∀ o, classifyProposal n self m k host aof ≠ .ok o := by
+    intro o
+    unfold classifyProposal
+    split
+    · simp
+    · split
+      · simp
+      · rcases scanMembers_leader m.roles m.statuses m.views aof j hlen1 hlen2 hj hr hs with h | h <;> rw [h] <;> simp
+  cases hres : handleProposal n self m k host aof with
+  | mk r m' =>
+    have hnok : ∀ o, r ≠ .ok o := by
+      intro o hc
+      subst hc
+      unfold handleProposal at hres
+      cases hcl : classifyProposal n self m k host aof with
+      | ok o' => exact key o' hcl
+      | reject => rw [hcl] at hres; simp at hres
+      | role => rw [hcl] at hres; simp at hres
+      | status => rw [hcl] at hres; simp at hres
+      | aofid => rw [hcl] at hres; simp at hres
+      | badHost => rw [hcl] at hres; simp at hres
+      | offline => rw [hcl] at hres; simp at hres
+      | propId x => rw [hcl] at hres; simp at hres
+    exact ⟨handleProposal_not_ok hres hnok, hnok⟩
+
+/-- the hypotheses are satisfiable: member 1's table says member 0 is the leader and online -/
+example : getN ({ initMember 3 1 1 0 logA with roles := [ROLE_LEADER, 2, 2] }).roles 0 = ROLE_LEADER ∧
+    (handleProposal 3 1 { initMember 3 1 1 0 logA with roles := [ROLE_LEADER, 2, 2] } 5 2 logA).1 = .status := by decide
 
 /-! ### the proposed member -/
 
@@ -297,10 +401,10 @@ example : AllInWindow [respA, respArb, respB] ∧ choose none [respA, respArb, r
 
 /-- `C12_refuse_newer`: a data-bearing acceptor whose own log is newer (by `CompareAofId`) than the proposed one answers
 ERR_REJECT / ProposalRejectError and changes nothing — whatever the number, host, latch or roles. -/
-theorem C12_refuse_newer (n : Nat) (m : Member) (k host : Nat) (aof : AofId)
+theorem C12_refuse_newer (n self : Nat) (m : Member) (k host : Nat) (aof : AofId)
     (hdata : m.arbiter = 0) (hnewer : compareAofId m.ownAof aof > 0) :
-    handleProposal n m k host aof = (.reject, m) :=
-  handleProposal_refuse_newer n m k host aof hdata hnewer
+    handleProposal n self m k host aof = (.reject, m) :=
+  handleProposal_refuse_newer n self m k host aof hdata hnewer
 
 /-- one such refusal makes the whole proposal round fail, even with a majority of acceptances (`isReject`) -/
 theorem C12_reject_vetoes (n c : Nat) (m : Member) (h : m.isReject = true) : (finishProposal n c m).1.phase = .idle := by
